@@ -116,4 +116,31 @@ func hasFile(fsys Files, name string) bool { _, ok := fsys[name]; return ok }
 //@   loop 1
 //@     invariant len(entries) == len(names)
 
+// ---------------------------------------------------------------------------
+// errors.go (C12): the public PanicError mirrors the runtime's chain of panics.
+// "Next returns the next panic in the chain": nil exactly at the end of the
+// chain, so that `for e := perr; e != nil; e = e.Next()` terminates.
+// ---------------------------------------------------------------------------
+
+//@ func (*PanicError).Next
+//@   props C12
+//@   requires p.p != nil
+//@   ensures (result == nil) == (p.p.Next() == nil)
+//@   ensures result != nil ==> result.p == p.p.Next()
+
+//@ func (*PanicError).Message
+//@   props C12
+//@   requires p.p != nil
+//@   ensures result == p.p.Message()
+
+//@ func (*PanicError).Recovered
+//@   props C12
+//@   requires p.p != nil
+//@   ensures result == p.p.Recovered()
+
+//@ func (*PanicError).Path
+//@   props C12
+//@   requires p.p != nil
+//@   ensures result == p.p.Path()
+
 var _ = fs.ValidPath
